@@ -2,6 +2,7 @@ import Poulpy.Lemmas.CoreOpsVal
 import Poulpy.Lemmas.CoreOpsProg
 import Poulpy.Lemmas.CoreOpsNorm
 import Poulpy.Lemmas.CoreOpsShift
+import Poulpy.Lemmas.CoreOpsShift2
 import Poulpy.Props.C08
 
 /-!
@@ -32,7 +33,7 @@ less than one unit of the result's last limb per truncated column of balanced di
 -/
 
 namespace C02
-open Hal Core Core.Ops C02L
+open Hal Core Core.Ops C02L CoreEnc
 
 deriving instance DecidableEq for Core.GLWE
 deriving instance DecidableEq for Core.Ops.GGSW
@@ -416,34 +417,238 @@ example : ∃ r', glweNormalizeAssign 2 { base2k := 4, k := 8, n := 2, cols := [
           rcases hx with rfl | rfl <;> norm_num)
   ⟨r', h⟩
 
-/-- `glwe_lsh_assign` under the value specification of `vec_znx_lsh_assign` on the coefficient columns
-of `res` (`KernelOn`: `val(out)·2^py = val(in)·2^px + e + q·2^(px+py)`, `|e| ≤ U`) -/
-theorem lsh_assign_phase_modulo_norm {N : Nat} {res : GLWE} (hr : GWF N res) (k px py : Nat) (U : Int)
-    (hK : KernelOn N res (lshAssignCoef res.base2k k) res.base2k px py U) :
-    ∃ r', glweLshAssign N res k = .ok r' ∧ Same res r' ∧ GWF N r' ∧ r'.size = res.size ∧
+/-! ### the `lsh` family, outright (from `C08.lsh_value`, `lsh_add_value`, `lsh_sub_value`)
+
+`b = res.base2k = a.base2k`, `rs = res.size`, `as = a.size`; the operand may have any rank `≤ res.rank`
+(its missing columns count as zero columns: `glwe_lsh` zeroes them, `glwe_lsh_add/sub` leave them).
+The relation `2^(b·as)·X = 2^k·2^(b·rs)·Y + e + q·2^(b·rs+b·as)` reads `X/2^(b·rs) = Y·2^k/2^(b·as) + e/2^(b·rs+b·as) (mod 1)`;
+`|e| ≤ u·2^(b·as)` is `u` units of the result's last limb. -/
+
+/-- head-room instances used by the examples (radix `2^4`) -/
+theorem hr4 : NormL.HeadRoom 64 4 0 (2 ^ 62) := ⟨by norm_num, by norm_num, by norm_num, by norm_num, by norm_num⟩
+theorem hr4' : NormL.HeadRoom 64 4 0 (2 ^ 60) := ⟨by norm_num, by norm_num, by norm_num, by norm_num, by norm_num⟩
+
+/-- tolerance of one left shift: exact when the shifted operand fits the result -/
+def lshTol (b rs as k : Nat) : Int := if b * as ≤ b * rs + k then 0 else 2 ^ (b * as)
+
+/-- **`glwe_lsh`**: `phase(r') = phase(a)·2^k` on the torus, exactly when `b·as ≤ b·rs + k`, within
+`1 + Σ‖sᵢ‖₁` units of the last limb otherwise -/
+theorem lsh_phase {N : Nat} {res a : GLWE} (hr : GWF N res) (ha : GWF N a) (hbk : res.base2k = a.base2k)
+    (hrank : a.rank ≤ res.rank) {H : Int} (hh : NormL.HeadRoom 64 res.base2k 0 H) (hb : GBound H a) (k : Nat) :
+    ∃ r', glweLsh N res a k = .ok r' ∧ Same res r' ∧ GWF N r' ∧ r'.size = res.size ∧
       ∀ (s : List Poly) t, t < N → ∃ q e : Int,
-        valCoeff res.base2k (phase s r') t * 2 ^ py = valCoeff res.base2k (phase s res) t * 2 ^ px + e + q * 2 ^ (px + py) ∧
-        |e| ≤ (1 + snorm (min res.rank s.length) s) * U := by
-  obtain ⟨r', h1, h2, h3, h4, _, h6⟩ := selfmap_generic hr (fun ri => lshAssignCol res.base2k k ri N)
-    (lshAssignCoef res.base2k k) (fun _ => rfl) px py U hK
-  exact ⟨r', h1, h2, h3, h4, h6⟩
+        2 ^ (res.base2k * a.size) * valCoeff res.base2k (phase s r') t
+          = (2 ^ k * 2 ^ (res.base2k * res.size)) * valCoeff res.base2k (phase s a) t + e
+            + q * 2 ^ (res.base2k * res.size + res.base2k * a.size) ∧
+        |e| ≤ (1 + snorm (min res.rank s.length) s) * lshTol res.base2k res.size a.size k := by
+  unfold glweLsh
+  rw [check_true _ _ (beq_true hr.1), check_true _ _ (beq_true ha.1), check_true _ _ (beq_true hbk),
+    check_true _ _ (by simpa using hrank)]
+  obtain ⟨r', e, hs, w, sz, h1, h2⟩ := withK_zero_loop hr ha hrank (fun aa rr => lshCoef .overwrite res.base2k k aa rr)
+  refine ⟨r', e, hs, w, sz, fun s t ht => ?_⟩
+  have hU : 0 ≤ lshTol res.base2k res.size a.size k := by unfold lshTol; split <;> positivity
+  have := kernel2_phase hr ha w hs hrank _ (2 ^ (res.base2k * a.size)) 0 (2 ^ k * 2 ^ (res.base2k * res.size))
+    (2 ^ (res.base2k * res.size + res.base2k * a.size)) _ hU
+    (fun i hi t ht => by
+      have hal : (coefAt (col a i) t).length = a.size := by rw [coefAt_length, (ha.col_wf i hi).1]
+      have hrl : (coefAt (col res i) t).length = res.size := by rw [coefAt_length, (hr.col_wf i (by omega)).1]
+      have hab := coefAt_bound hh.hH0 (hb _ (col_mem i (by rw [ha.len]; omega))) t
+      have hv := C08.lsh_value hh k _ (coefAt (col res i) t) hab
+      rw [hal, hrl] at hv
+      refine ⟨hv.1, ?_⟩
+      unfold lshTol
+      split
+      · obtain ⟨q, hq⟩ := hv.2.2.2 (by assumption)
+        exact ⟨q, 0, by linear_combination hq, by simp⟩
+      · obtain ⟨q, e, hq, he⟩ := hv.2.2.1
+        exact ⟨q, e, by linear_combination hq, he⟩)
+    h1 (fun i hi hi2 t => by rw [h2 i hi hi2, valCoeff_vecZero]; ring) s t ht
+  obtain ⟨q, e, he, hb'⟩ := this
+  exact ⟨q, e, by linear_combination he, hb'⟩
 
-/-- rank 1, two limbs, radix `2^4` -/
-def exL : GLWE := { base2k := 4, k := 8, n := 2, cols := [[[3, -2], [5, 7]], [[1, 0], [-8, 6]]] }
-
-/-- left shift by 6 bits (8 bits of precision): exact, `val(out)/2^8 = val(in)·2^6/2^8 mod 1`, i.e. `px = 8`,
-`py = 2`, `U = 0`; the kernel hypothesis is checked on the four coefficient columns of this ciphertext -/
-example : ∃ r', glweLshAssign 2 exL 6 = .ok r' ∧
-    ∀ (s : List Poly) t, t < 2 → ∃ q e : Int,
-      valCoeff 4 (phase s r') t * 2 ^ 2 = valCoeff 4 (phase s exL) t * 2 ^ 8 + e + q * 2 ^ (8 + 2) ∧
-      |e| ≤ (1 + snorm (min 1 s.length) s) * 0 := by
-  obtain ⟨r', h, _, _, _, hp⟩ := lsh_assign_phase_modulo_norm (N := 2) (res := exL) (by decide) 6 8 2 0
-    (by
-      intro i hi t ht
-      have hi' : i ≤ 1 := hi
-      have : (i = 0 ∨ i = 1) ∧ (t = 0 ∨ t = 1) := by omega
-      rcases this with ⟨rfl | rfl, rfl | rfl⟩ <;> exact ⟨by decide, torus_exact_of_emod (by decide)⟩)
+/-- rank-2 result of two limbs, rank-1 operand of three limbs (smaller rank, longer): `glwe_lsh` by 5 bits -/
+example : ∃ r', glweLsh 2 exRes2 exA 5 = .ok r' ∧ ∀ (s : List Poly) t, t < 2 → ∃ q e : Int,
+    2 ^ (4 * 3) * valCoeff 4 (phase s r') t = (2 ^ 5 * 2 ^ (4 * 2)) * valCoeff 4 (phase s exA) t + e + q * 2 ^ (4 * 2 + 4 * 3) ∧
+    |e| ≤ (1 + snorm (min 2 s.length) s) * lshTol 4 2 3 5 := by
+  obtain ⟨r', h, _, _, _, hp⟩ := lsh_phase (N := 2) (res := exRes2) (a := exA) (by decide) (by decide) rfl (by decide)
+    (H := 2 ^ 62) hr4
+    (by intro c hc l hl x hx; have : |x| ≤ 8 := by revert x l c; decide
+        exact this.trans (by norm_num)) 5
   exact ⟨r', h, hp⟩
+
+/-- **`glwe_lsh_add`**: `phase(r') = phase(res) + phase(a)·2^k` within `1 + Σ‖sᵢ‖₁` units of the last limb
+(`|res limbs| ≤ 2^62`, radix at most `2^62`: the fused kernel adds balanced digits without wrapping) -/
+theorem lsh_add_phase {N : Nat} {res a : GLWE} (hr : GWF N res) (ha : GWF N a) (hbk : res.base2k = a.base2k)
+    (hrank : a.rank ≤ res.rank) {H : Int} (hh : NormL.HeadRoom 64 res.base2k 0 H) (hb62 : res.base2k ≤ 62)
+    (hb : GBound H a) (hbr : GBound (2 ^ 62) res) (k : Nat) :
+    ∃ r', glweLshAdd N res a k = .ok r' ∧ Same res r' ∧ GWF N r' ∧ r'.size = res.size ∧
+      ∀ (s : List Poly) t, t < N → ∃ q e : Int,
+        2 ^ (res.base2k * a.size) * valCoeff res.base2k (phase s r') t
+          = 2 ^ (res.base2k * a.size) * valCoeff res.base2k (phase s res) t
+            + (2 ^ k * 2 ^ (res.base2k * res.size)) * valCoeff res.base2k (phase s a) t + e
+            + q * 2 ^ (res.base2k * res.size + res.base2k * a.size) ∧
+        |e| ≤ (1 + snorm (min res.rank s.length) s) * 2 ^ (res.base2k * a.size) := by
+  unfold glweLshAdd
+  rw [check_true _ _ (beq_true hr.1), check_true _ _ (beq_true ha.1), check_true _ _ (beq_true hbk),
+    check_true _ _ (by simpa using hrank)]
+  obtain ⟨r', e, hs, w, sz, h1, h2⟩ := withK_loop hr ha hrank (fun aa rr => lshCoef .add res.base2k k aa rr)
+  refine ⟨r', e, hs, w, sz, fun s t ht => ?_⟩
+  exact kernel2_phase hr ha w hs hrank _ (2 ^ (res.base2k * a.size)) (2 ^ (res.base2k * a.size))
+    (2 ^ k * 2 ^ (res.base2k * res.size)) (2 ^ (res.base2k * res.size + res.base2k * a.size)) _ (by positivity)
+    (fun i hi t ht => by
+      have hal : (coefAt (col a i) t).length = a.size := by rw [coefAt_length, (ha.col_wf i hi).1]
+      have hrl : (coefAt (col res i) t).length = res.size := by rw [coefAt_length, (hr.col_wf i (by omega)).1]
+      have hab := coefAt_bound hh.hH0 (hb _ (col_mem i (by rw [ha.len]; omega))) t
+      have hrb := coefAt_bound (by positivity) (hbr _ (col_mem i (by rw [hr.len]; omega))) t
+      have hv := C08.lsh_add_value hh hb62 k _ _ hab hrb
+      rw [hal, hrl] at hv
+      have hlen : (lshCoef .add res.base2k k (coefAt (col a i) t) (coefAt (col res i) t)).length = res.size := by
+        rw [NormL.lshCoef_fused_eq .add (by decide) _ _ _ _ (fun r h => lt_of_le_of_lt (hrb r h) (by norm_num)),
+          List.length_zipWith, (C08.lsh_value hh k _ (coefAt (col res i) t) hab).1, hrl]; simp
+      obtain ⟨q, e, hq, he⟩ := hv
+      exact ⟨hlen, q, e, by linear_combination hq, he⟩)
+    h1 (fun i hi _ t => by rw [h2 i hi]) s t ht
+
+example : ∃ r', glweLshAdd 2 exRes2 exA 5 = .ok r' := by
+  obtain ⟨r', h, _⟩ := lsh_add_phase (N := 2) (res := exRes2) (a := exA) (by decide) (by decide) rfl (by decide)
+    (H := 2 ^ 60) hr4' (by decide)
+    (by intro c hc l hl x hx; have : |x| ≤ 8 := by revert x l c; decide
+        exact this.trans (by norm_num))
+    (by intro c hc l hl x hx; have : |x| ≤ 8 := by revert x l c; decide
+        exact this.trans (by norm_num)) 5
+  exact ⟨r', h⟩
+
+/-- **`glwe_lsh_sub`**: `phase(r') = phase(res) − phase(a)·2^k` within `1 + Σ‖sᵢ‖₁` units of the last limb -/
+theorem lsh_sub_phase {N : Nat} {res a : GLWE} (hr : GWF N res) (ha : GWF N a) (hbk : res.base2k = a.base2k)
+    (hrank : a.rank ≤ res.rank) {H : Int} (hh : NormL.HeadRoom 64 res.base2k 0 H) (hb62 : res.base2k ≤ 62)
+    (hb : GBound H a) (hbr : GBound (2 ^ 62) res) (k : Nat) :
+    ∃ r', glweLshSub N res a k = .ok r' ∧ Same res r' ∧ GWF N r' ∧ r'.size = res.size ∧
+      ∀ (s : List Poly) t, t < N → ∃ q e : Int,
+        2 ^ (res.base2k * a.size) * valCoeff res.base2k (phase s r') t
+          = 2 ^ (res.base2k * a.size) * valCoeff res.base2k (phase s res) t
+            + (-(2 ^ k * 2 ^ (res.base2k * res.size))) * valCoeff res.base2k (phase s a) t + e
+            + q * 2 ^ (res.base2k * res.size + res.base2k * a.size) ∧
+        |e| ≤ (1 + snorm (min res.rank s.length) s) * 2 ^ (res.base2k * a.size) := by
+  unfold glweLshSub
+  rw [check_true _ _ (beq_true hr.1), check_true _ _ (beq_true ha.1), check_true _ _ (beq_true hbk),
+    check_true _ _ (by simpa using hrank)]
+  obtain ⟨r', e, hs, w, sz, h1, h2⟩ := withK_loop hr ha hrank (fun aa rr => lshCoef .sub res.base2k k aa rr)
+  refine ⟨r', e, hs, w, sz, fun s t ht => ?_⟩
+  exact kernel2_phase hr ha w hs hrank _ (2 ^ (res.base2k * a.size)) (2 ^ (res.base2k * a.size))
+    (-(2 ^ k * 2 ^ (res.base2k * res.size))) (2 ^ (res.base2k * res.size + res.base2k * a.size)) _ (by positivity)
+    (fun i hi t ht => by
+      have hal : (coefAt (col a i) t).length = a.size := by rw [coefAt_length, (ha.col_wf i hi).1]
+      have hrl : (coefAt (col res i) t).length = res.size := by rw [coefAt_length, (hr.col_wf i (by omega)).1]
+      have hab := coefAt_bound hh.hH0 (hb _ (col_mem i (by rw [ha.len]; omega))) t
+      have hrb := coefAt_bound (by positivity) (hbr _ (col_mem i (by rw [hr.len]; omega))) t
+      have hv := C08.lsh_sub_value hh hb62 k _ _ hab hrb
+      rw [hal, hrl] at hv
+      have hlen : (lshCoef .sub res.base2k k (coefAt (col a i) t) (coefAt (col res i) t)).length = res.size := by
+        rw [NormL.lshCoef_fused_eq .sub (by decide) _ _ _ _ (fun r h => lt_of_le_of_lt (hrb r h) (by norm_num)),
+          List.length_zipWith, (C08.lsh_value hh k _ (coefAt (col res i) t) hab).1, hrl]; simp
+      obtain ⟨q, e, hq, he⟩ := hv
+      exact ⟨hlen, q, e, by linear_combination hq, he⟩)
+    h1 (fun i hi _ t => by rw [h2 i hi]) s t ht
+
+example : ∃ r', glweLshSub 2 exRes2 exPt 9 = .ok r' := by
+  obtain ⟨r', h, _⟩ := lsh_sub_phase (N := 2) (res := exRes2) (a := exPt) (by decide) (by decide) rfl (by decide)
+    (H := 2 ^ 60) hr4' (by decide)
+    (by intro c hc l hl x hx; have : |x| ≤ 8 := by revert x l c; decide
+        exact this.trans (by norm_num))
+    (by intro c hc l hl x hx; have : |x| ≤ 8 := by revert x l c; decide
+        exact this.trans (by norm_num)) 9
+  exact ⟨r', h⟩
+
+/-- **`glwe_lsh_assign`**: `phase(r') = phase(res)·2^k` on the torus, exactly (the low limbs are zero-filled,
+the bits shifted out at the top are integers) -/
+theorem lsh_assign_phase {N : Nat} {res : GLWE} (hr : GWF N res) {H : Int} (hh : NormL.HeadRoom 64 res.base2k 0 H)
+    (hb : GBound H res) (k : Nat) :
+    ∃ r', glweLshAssign N res k = .ok r' ∧ Same res r' ∧ GWF N r' ∧ r'.size = res.size ∧
+      ∀ (s : List Poly) t, t < N → ∃ q : Int,
+        valCoeff res.base2k (phase s r') t * 2 ^ (res.base2k * res.size)
+          = valCoeff res.base2k (phase s res) t * 2 ^ k * 2 ^ (res.base2k * res.size)
+            + q * 2 ^ (res.base2k * res.size + res.base2k * res.size) := by
+  obtain ⟨r', h1, hs, w, sz, hcol⟩ := selfmap_cols (N := N) hr (fun ri => lshAssignCol res.base2k k ri N)
+    (lshAssignCoef res.base2k k) (fun _ => rfl)
+  refine ⟨r', h1, hs, w, sz, fun s t ht => ?_⟩
+  have := torus_phase3 w hr hr hs.rank.symm (by rw [hs.rank]) res.base2k res.base2k res.base2k
+    (2 ^ (res.base2k * res.size)) 0 (2 ^ k * 2 ^ (res.base2k * res.size)) (2 ^ (res.base2k * res.size + res.base2k * res.size)) 0
+    (fun i hi t ht => by
+      rw [hs.rank] at hi
+      have hal : (coefAt (col res i) t).length = res.size := by rw [coefAt_length, (hr.col_wf i hi).1]
+      have hab := coefAt_bound hh.hH0 (hb _ (col_mem i (by rw [hr.len]; omega))) t
+      have hv := C08.lsh_value hh k _ (coefAt (col res i) t) hab
+      rw [hal] at hv
+      obtain ⟨q, hq⟩ := hv.2.2.2 (by omega)
+      refine ⟨q, 0, ?_, by simp⟩
+      rw [hcol i hi, valCoeff_eq, valCoeff_eq, coefAt_mapCoefs _ _ _ t ht (by rw [lshAssign_eq_lsh hh k _ hab]; exact hv.1),
+        lshAssign_eq_lsh hh k _ hab]
+      linear_combination hq) s t ht
+  obtain ⟨q, e, he, hb'⟩ := this
+  have : e = 0 := by
+    have : |e| ≤ 0 := by simpa using hb'
+    exact abs_eq_zero.mp (le_antisymm this (abs_nonneg e))
+  exact ⟨q, by rw [this] at he; linear_combination he⟩
+
+example : ∃ r', glweLshAssign 2 exA 6 = .ok r' ∧ ∀ (s : List Poly) t, t < 2 → ∃ q : Int,
+    valCoeff 4 (phase s r') t * 2 ^ (4 * 3) = valCoeff 4 (phase s exA) t * 2 ^ 6 * 2 ^ (4 * 3) + q * 2 ^ (4 * 3 + 4 * 3) := by
+  obtain ⟨r', h, _, _, _, hp⟩ := lsh_assign_phase (N := 2) (res := exA) (by decide)
+    (H := 2 ^ 62) hr4
+    (by intro c hc l hl x hx; have : |x| ≤ 8 := by revert x l c; decide
+        exact this.trans (by norm_num)) 6
+  exact ⟨r', h, hp⟩
+
+/-- **`glwe_normalize`, same radix, all limb counts** (from `C08.normalize_inter_value`): the phase is
+re-expressed on `res.size` limbs, exactly when `a.size ≤ res.size`, within `1 + Σ‖sᵢ‖₁` units otherwise -/
+theorem normalize_same_radix_phase {N : Nat} {res a : GLWE} (hr : GWF N res) (ha : GWF N a) (hbk : res.base2k = a.base2k)
+    (hrank : res.rank = a.rank) {H : Int} (hh : NormL.HeadRoom 64 res.base2k 0 H) (hb : GBound H a) :
+    ∃ r', glweNormalize N res a = .ok r' ∧ Same res r' ∧ GWF N r' ∧ r'.size = res.size ∧
+      ∀ (s : List Poly) t, t < N → ∃ q e : Int,
+        2 ^ (res.base2k * a.size) * valCoeff res.base2k (phase s r') t
+          = 2 ^ (res.base2k * res.size) * valCoeff res.base2k (phase s a) t + e
+            + q * 2 ^ (res.base2k * res.size + res.base2k * a.size) ∧
+        |e| ≤ (1 + snorm (min res.rank s.length) s) * lshTol res.base2k res.size a.size 0 := by
+  obtain ⟨r', e, hs, w, sz, hcol⟩ := normalize_loop hr ha hrank
+    (fun i => mapCoefs N res.size (fun t => normalizeInterCoef 64 res.base2k res.size 0 (coefAt (col a i) t)))
+    (fun i _ => ⟨by rw [← hbk]; exact normalizeCol_same _ _ _ _, mapCoefs_length _ _ _, mapCoefs_WF _ _ _⟩)
+  refine ⟨r', e, hs, w, sz, fun s t ht => ?_⟩
+  have hU : 0 ≤ lshTol res.base2k res.size a.size 0 := by unfold lshTol; split <;> positivity
+  have := torus_phase3 w hr ha hs.rank.symm (by rw [hs.rank, hrank]) res.base2k res.base2k res.base2k
+    (2 ^ (res.base2k * a.size)) 0 (2 ^ (res.base2k * res.size)) (2 ^ (res.base2k * res.size + res.base2k * a.size))
+    (lshTol res.base2k res.size a.size 0)
+    (fun i hi t ht => by
+      rw [hs.rank] at hi
+      have hal : (coefAt (col a i) t).length = a.size := by rw [coefAt_length, (ha.col_wf i (by omega)).1]
+      have hab := coefAt_bound hh.hH0 (hb _ (col_mem i (by rw [ha.len]; omega))) t
+      have hv := C08.normalize_inter_value hh res.size 0 _ hab
+      simp only [Int.toNat_zero, pow_zero, mul_one, neg_zero, Nat.add_zero, sub_zero] at hv
+      rw [hal] at hv
+      rw [hcol i hi, valCoeff_eq, valCoeff_eq, valCoeff_eq, coefAt_mapCoefs _ _ _ t ht hv.1]
+      unfold lshTol
+      split
+      next hc =>
+        obtain ⟨q, hq⟩ := hv.2.2.2 (by exact_mod_cast (by omega : res.base2k * a.size ≤ res.base2k * res.size))
+        exact ⟨q, 0, by linear_combination hq, by simp⟩
+      next hc =>
+        obtain ⟨q, e, hq, he⟩ := hv.2.2.1
+        exact ⟨q, e, by linear_combination hq, he⟩) s t ht
+  rw [hs.rank] at this
+  obtain ⟨q, e, he, hb'⟩ := this
+  exact ⟨q, e, by linear_combination he, hb'⟩
+
+/-- three limbs into two (truncating) and one limb into two (exact), radix `2^4` -/
+example : (∃ r', glweNormalize 2 exRes exA = .ok r') ∧ (∃ r', glweNormalize 2 exRes exB = .ok r') := by
+  constructor
+  · obtain ⟨r', h, _⟩ := normalize_same_radix_phase (N := 2) (res := exRes) (a := exA) (by decide) (by decide) rfl rfl
+      (H := 2 ^ 62) hr4
+      (by intro c hc l hl x hx; have : |x| ≤ 8 := by revert x l c; decide
+          exact this.trans (by norm_num))
+    exact ⟨r', h⟩
+  · obtain ⟨r', h, _⟩ := normalize_same_radix_phase (N := 2) (res := exRes) (a := exB) (by decide) (by decide) rfl rfl
+      (H := 2 ^ 62) hr4
+      (by intro c hc l hl x hx; have : |x| ≤ 8 := by revert x l c; decide
+          exact this.trans (by norm_num))
+    exact ⟨r', h⟩
 
 /-! ## straight-line programs
 
